@@ -1,6 +1,7 @@
 SPEC = {
     "bins": [
         {"name": "c10", "pkg": "./zz_verif/c10", "run": "^Test", "shards": {"quick": 1, "thorough": 16}},
+        {"name": "c10a", "pkg": "./zz_verif/c10a", "run": "^Test", "shards": {"quick": 1, "thorough": 16}},
         {"name": "c10fuzz", "pkg": "./zz_verif/c10", "fuzz": "FuzzC10", "fuzztime": "60s", "tiers": ["thorough"], "shards": {"thorough": 1}},
     ],
     "rule": "case = (decoding entry point, input) where the input is a format-aware mutation of a valid encoding (bit flip, every-prefix truncation, appended bytes, overwritten windows, "
